@@ -136,7 +136,12 @@ def soup(rng):
     parts = []
     for i in range(n):
         k = rng.random()
-        if k < 0.22:
+        if k < 0.02:
+            # a reserved word spelled with a unicode escape is not that keyword's token
+            w = rng.choice(sorted(RESERVED))
+            j = rng.randrange(len(w))
+            tok = w[:j] + '\\u%04x' % ord(w[j]) + w[j + 1:]
+        elif k < 0.22:
             tok = rng.choice(jsgen.IDENT_POOL + jsgen.UNICODE_IDENTS)
         elif k < 0.32:
             tok = rng.choice(sorted(RESERVED))
